@@ -285,6 +285,7 @@ func rulesFastqLayout(c *Ctx, r *Report) {
 	}
 	// views: for a value, which scan produced it (latest Scan dominating its Bytes() call)
 	var altered []string // what find() met on the way from a value to its line, other than copies and cuts
+	var scanOfLine func(v ssa.Value) int
 	scanOf := func(v ssa.Value) int {
 		seen := map[ssa.Value]bool{}
 		var find func(v ssa.Value) *ssa.Call
@@ -356,6 +357,7 @@ func rulesFastqLayout(c *Ctx, r *Report) {
 		}
 		return idx
 	}
+	scanOfLine = scanOf
 	// record fields
 	rec, _ := retOperands(acc)[0].(*ssa.Alloc)
 	fieldScan := map[int]int{}
@@ -411,8 +413,15 @@ func rulesFastqLayout(c *Ctx, r *Report) {
 	r.check(okName, "F4L", where, "name without '@'", c.pos(acc.Pos()), "Name is line 1 without its first byte", "Name is not line 1 with exactly the leading '@' removed")
 	// REJECT guards
 	guards := map[string]bool{}
-	var collectGuards func(accBlk *ssa.BasicBlock, s *symb, depth int)
-	collectGuards = func(accBlk *ssa.BasicBlock, s *symb, depth int) {
+	var collectGuards func(accBlk *ssa.BasicBlock, s *symb, depth int, remap map[ssa.Value]ssa.Value)
+	collectGuards = func(accBlk *ssa.BasicBlock, s *symb, depth int, remap map[ssa.Value]ssa.Value) {
+		scanOf := func(v ssa.Value) int {
+			if w, ok := remap[v]; ok {
+				v = w
+			}
+			return scanOfLine(v)
+		}
+		_ = scanOf
 		for b := accBlk; b != nil && b.Idom() != nil; b = b.Idom() {
 			d := b.Idom()
 			iff, ok := d.Instrs[len(d.Instrs)-1].(*ssa.If)
@@ -429,12 +438,22 @@ func rulesFastqLayout(c *Ctx, r *Report) {
 				// behind `err == nil` of a validating helper of the package: the guards of the helper's own successful
 				// return count, its parameters standing for the arguments
 				if ev := errNonNilEdge(edgeLit{x, onFalse}); ev != nil && depth < 2 {
+					var evCall ssa.Value = ev
 					if ex, ok := ev.(*ssa.Extract); ok {
-						if cl, ok := ex.Tuple.(*ssa.Call); ok {
+						evCall = ex.Tuple
+					}
+					{
+						if cl, ok := evCall.(*ssa.Call); ok {
 							if h := cl.Call.StaticCallee(); h != nil && h.Blocks != nil && h.Pkg == accBlk.Parent().Pkg && len(h.Params) == len(cl.Call.Args) {
 								hs := newSymb(h)
+								rm := map[ssa.Value]ssa.Value{}
 								for i, p := range h.Params {
 									hs.subst[p] = s.expr(cl.Call.Args[i])
+									a := cl.Call.Args[i]
+									if w, ok := remap[a]; ok {
+										a = w
+									}
+									rm[p] = a
 								}
 								var okRets []*ssa.Return
 								instrs(h, func(in ssa.Instruction) {
@@ -446,7 +465,7 @@ func rulesFastqLayout(c *Ctx, r *Report) {
 									}
 								})
 								if len(okRets) == 1 {
-									collectGuards(okRets[0].Block(), hs, depth+1)
+									collectGuards(okRets[0].Block(), hs, depth+1, rm)
 								}
 							}
 						}
@@ -502,7 +521,7 @@ func rulesFastqLayout(c *Ctx, r *Report) {
 			}
 		}
 	}
-	collectGuards(acc.Block(), s, 0)
+	collectGuards(acc.Block(), s, 0, nil)
 	r.check(guards["at"] && guards["nonempty"], "REJECT", where, "leading '@'", c.pos(acc.Pos()), "the accepting return lies behind len(line1) > 0 and line1[0] == '@'", "a record whose first line is empty or does not start with '@' can reach the accepting return")
 	if guards["plus0"] && guards["plusNonEmpty"] {
 		guards["plus"] = true
